@@ -52,6 +52,7 @@ for _p in 'sdcz':
     RECT |= {_p + x for x in RECT_P} | {'sp_%sgemv' % _p, 'sp_%sgemm' % _p}
 # parameters whose name fixes their kind throughout the factorization code (value, or pointee for an `int *` out-parameter)
 PARAM_KINDS = {'jcol': 'pos', 'fsupc': 'pos', 'pivrow': 'row'}
+PARAM_EXT = {('gsequ', 'r'): 'M', ('gsequ', 'c'): 'N', ('laqgs', 'r'): 'M', ('laqgs', 'c'): 'N'}
 # routines that relabel lsub from rows to positions / work on the final (position-labelled) structure
 EXEMPT_FUNCS = {'fixupL'}
 
@@ -106,6 +107,11 @@ class Analyzer(object):
         # local arrays: var id -> extent class of the allocation
         self.local_ext = {}
         self.alias = {}     # var id -> array name it points into (range only)
+        # scale-factor arrays of the equilibration routines: r[] has one entry per row, c[] one per column (documented in their headers)
+        base = f.name[1:] if f.name[:1] in 'sdcz' else f.name
+        for (pn, pid_, pt) in f.params:
+            if (base, pn) in PARAM_EXT:
+                self.local_ext[pid_] = PARAM_EXT[(base, pn)]
         for x in f.body.walk():
             tgt = rhs = None
             if x.k == 'Assign' and x.a['op'] == '=' and strip(x.c[0]).k == 'Ref':
